@@ -25,6 +25,22 @@ FAMILIES = {
 }
 
 
+def _nest(name, k, inner):
+    t = inner
+    for _ in range(k):
+        t = ('F', name, [t])
+    return t
+
+
+def inside_unify_family(k, r):
+    """the depth error strikes inside the unification of a nested argument (the unification itself makes
+    the term deeper: Y is bound to an r-deep term and then met again under k functors); a later clause
+    has a shallow answer. What is returned must still be a prefix of [deep, shallow]."""
+    return [('fact', [('F', 'h', [('F', 'f', [V('Y'), _nest('w', k, V('Y'))])])], 'tru'),
+            ('pp', [('A', 'deep')], ('call', 'fact', [('F', 'h', [('F', 'f', [_nest('s', r, ('A', 'z')), ('_',)])])]), True),
+            ('pp', [('A', 'shallow')], 'tru')]
+
+
 def mk_list(n):
     t = [Sym('a'), '[]']
     for i in range(n):
@@ -44,7 +60,7 @@ def sxd(x):
 
 
 def _case(rep, drv, rnd, i, tier):
-    fam = rnd.choice(list(FAMILIES) + ['random', 'random'])
+    fam = rnd.choice(list(FAMILIES) + ['random', 'random', 'inside-unify'])
     limit = rnd.choice([100, 120, 150, 200, 250, 300, 400])
     raise_at = rnd.choice([None, None, None, 1, 2, 5])
     dyn = []
@@ -54,6 +70,12 @@ def _case(rep, drv, rnd, i, tier):
         name, args = g.queries(1)[0]
         limit = rnd.choice([600, 900])
         shallow = True
+    elif fam == 'inside-unify':
+        kk = rnd.choice([30, 60, 90])
+        prog = inside_unify_family(kk, rnd.choice([30, 60, 90]))
+        name, args = 'pp', [[Sym('v'), 0]]
+        limit = rnd.choice([100, 120, 135, 150, 170, 200, 230, 250, 300, 400])
+        shallow = False
     else:
         prog = FAMILIES[fam]
         shallow = False
